@@ -160,6 +160,12 @@ impl<R: DynamicChannelRegion> RegionHandler for DynamicChannelPlan<R> {
         }
     }
 
+    fn forget_downlink_frequencies(&mut self) {
+        for channel in self.channels.iter_mut().flatten() {
+            channel.dl_frequency = None;
+        }
+    }
+
     fn channel_mask_get(&self) -> ChannelMask<9> {
         self.channel_mask.clone()
     }
